@@ -120,6 +120,11 @@ func ruleCallers(filter func(callee string) bool) ruleFn {
 					// a helper all of whose callers are allowed callers (helper extraction)
 					okc = helperOfAllowed(r, c, allowed, prefixes, 0)
 				}
+				if !okc && callee == "time.Now" && onlyMeasuresDuration(r.P.Fn(c)) {
+					found++
+					r.OK("R4a", c, "calls "+callee, r.P.pos(site.Pos()), "the clock value is used only to compute an elapsed duration (time.Since / Sub) that is handed on, never compared: observability, not behaviour")
+					continue
+				}
 				if okc {
 					found++
 					r.OK("R4a", c, "calls "+callee, r.P.pos(site.Pos()), "listed caller: "+spec.why)
@@ -624,4 +629,99 @@ func ruleGate(r *Run) {
 		}
 	}
 	r.AtLeast("R4b", "downstream-reaching call sites in REQUEST", n, 10)
+}
+
+// onlyMeasuresDuration: every time.Now() in fn is used solely as the start of a duration
+// measurement — its only uses are time.Since(t) / t2.Sub(t) / stores into a local that is
+// read only by those — and no such duration is compared with anything.
+func onlyMeasuresDuration(fn *ssa.Function) bool {
+	if fn == nil {
+		return false
+	}
+	isDurationCall := func(c *ssa.CallCommon) bool {
+		n := calleeName(c)
+		return n == "time.Since" || n == "(time.Time).Sub"
+	}
+	var durationOK func(v ssa.Value, depth int) bool
+	durationOK = func(v ssa.Value, depth int) bool {
+		if v.Referrers() == nil || depth > 4 {
+			return depth <= 4
+		}
+		for _, ref := range *v.Referrers() {
+			switch x := ref.(type) {
+			case *ssa.BinOp:
+				switch x.Op {
+				case token.LSS, token.LEQ, token.GTR, token.GEQ, token.EQL, token.NEQ:
+					return false
+				}
+				if !durationOK(x, depth+1) {
+					return false
+				}
+			case *ssa.If:
+				return false
+			}
+		}
+		return true
+	}
+	var timeOK func(v ssa.Value, depth int) bool
+	timeOK = func(v ssa.Value, depth int) bool {
+		if v.Referrers() == nil || depth > 4 {
+			return false
+		}
+		for _, ref := range *v.Referrers() {
+			switch x := ref.(type) {
+			case *ssa.Call:
+				if isDurationCall(&x.Call) {
+					if !durationOK(x, 0) {
+						return false
+					}
+					continue
+				}
+				// handed to a module function: the parameter must be used the same way
+				sc := x.Call.StaticCallee()
+				if sc == nil || !inModule(sc) || sc.Blocks == nil {
+					return false
+				}
+				for i, a := range x.Call.Args {
+					if a == v && (i >= len(sc.Params) || !timeOK(sc.Params[i], depth+1)) {
+						return false
+					}
+				}
+			case *ssa.Store:
+				// spilled into a local (captured by a deferred closure, or addressable)
+				al, ok := x.Addr.(*ssa.Alloc)
+				if !ok || x.Val != v {
+					return false
+				}
+				for _, r2 := range *al.Referrers() {
+					switch y := r2.(type) {
+					case *ssa.Store:
+					case *ssa.UnOp:
+						if !timeOK(y, depth+1) {
+							return false
+						}
+					case *ssa.DebugRef:
+					default:
+						return false
+					}
+				}
+			case *ssa.DebugRef:
+			default:
+				return false
+			}
+		}
+		return true
+	}
+	n := 0
+	for _, ins := range allInstrs(fn) {
+		c, ok := ins.(*ssa.Call)
+		if !ok || calleeName(&c.Call) != "time.Now" {
+			continue
+		}
+		n++
+		if !timeOK(c, 0) {
+			return false
+		}
+	}
+	return n > 0
 }
